@@ -1199,6 +1199,136 @@ func encodeCmdRun(c *run.Ctx, r *kit.Rng, s *kit.Summary, n int) {
 	}
 }
 
+// autoDetectRun: long streams and streams with a large first record, read back through the format
+// detection every command uses (vegeta.DecoderFor) and through the `encode` command: total sizes around
+// 4 KiB, 32 KiB, 64 KiB and 1 MiB, first records of 20..70 kB. Oracle: the round trip of the property.
+func autoDetectRun(c *run.Ctx, r *kit.Rng, s *kit.Summary, n int) {
+	names := []string{"gob", "json", "csv"}
+	totals := []int{4096, 32768, 65536, 1 << 20}
+	firsts := []int{20000, 26000, 33000, 50000, 70000}
+	haveVegeta := false
+	if _, err := os.Stat(c.Vegeta); err == nil {
+		haveVegeta = true
+	}
+	type job struct {
+		rs       []vegeta.Result
+		from, to string
+		in, out  string
+		what     string
+	}
+	var jobs []job
+	var ops []string
+	for i := 0; i < n; i++ {
+		cn := names[i%3]
+		cd := codecs[cn]
+		var rs []vegeta.Result
+		what := ""
+		mk := func(maxBody int) vegeta.Result {
+			o := domainOpts("csv", r) // the intersection of the three domains
+			o.MaxBody = maxBody
+			return gen.Result(r, o)
+		}
+		if (i/3)%2 == 0 {
+			T := totals[(i/6)%len(totals)]
+			target := T*9/10 + r.Pick(T*4/10)
+			what = fmt.Sprintf("total around %d bytes", T)
+			maxBody := 60
+			if T >= 1<<20 {
+				maxBody = 6000
+			}
+			size := 0
+			for size < target {
+				x := mk(maxBody)
+				one, _ := encodeAll(cd, []vegeta.Result{x})
+				size += len(one)
+				rs = append(rs, x)
+			}
+		} else {
+			f := firsts[(i/6)%len(firsts)]
+			what = fmt.Sprintf("first record of about %d bytes", f)
+			x := mk(40)
+			kind := gen.BigFieldKinds[(i/6)%len(gen.BigFieldKinds)]
+			gen.Inflate(r, &x, kind, f, gen.TextOpts{})
+			what += " (" + kind + ")"
+			rs = append(rs, x)
+			for k := 0; k < 2+r.Pick(4); k++ {
+				rs = append(rs, mk(40))
+			}
+		}
+		enc, st := encodeAll(cd, rs)
+		if st != "ok" {
+			continue
+		}
+		s.Count("auto-detect:" + cn + " " + strings.SplitN(what, " (", 2)[0])
+		s.Case(fmt.Sprint("auto:", i, cn, what, len(enc)), true)
+		in := map[string]interface{}{"codec": cn, "read_through": "vegeta.DecoderFor", "stream": what, "stream_bytes": len(enc), "records": len(rs), "body_sizes_of_first_records": func() []int {
+			var o []int
+			for k := 0; k < len(rs) && k < 4; k++ {
+				o = append(o, len(rs[k].Body))
+			}
+			return o
+		}()}
+		var got []vegeta.Result
+		term := ""
+		p, _ := kit.Recover(func() {
+			dec := vegeta.DecoderFor(bytes.NewReader(enc))
+			if dec == nil {
+				term = "format not detected"
+				return
+			}
+			for {
+				var x vegeta.Result
+				err := dec.Decode(&x)
+				if err == io.EOF {
+					term = "eof"
+					return
+				}
+				if err != nil {
+					term = "err: " + err.Error()
+					return
+				}
+				got = append(got, x)
+			}
+		})
+		if p {
+			term = "panic"
+		}
+		if eq, at := equalAll(rs, got); !eq || term != "eof" {
+			s.Violate(kit.Violation{Kind: "auto_roundtrip", What: "a stream written by the " + cn + " encoder and read back through the format detection (DecoderFor) is not an equal sequence followed by end-of-stream",
+				Input: in, Expected: fmt.Sprintf("%d equal results then eof", len(rs)), Observed: fmt.Sprintf("%d results, first difference at %d, then %s", len(got), at, term), Key: map[string]interface{}{"codec": cn}})
+			continue
+		}
+		if haveVegeta {
+			to := names[(i/3)%3]
+			inp := filepath.Join(c.Work, fmt.Sprintf("auto-%d.in", i))
+			out := filepath.Join(c.Work, fmt.Sprintf("auto-%d.out", i))
+			os.WriteFile(inp, enc, 0o644)
+			jobs = append(jobs, job{rs, cn, to, inp, out, what})
+			ops = append(ops, "encode "+kit.HexS(to)+" "+kit.HexS(out)+" "+kit.HexS(inp))
+		}
+	}
+	if len(ops) == 0 {
+		return
+	}
+	res, err := kit.RunVegeta(c.Vegeta, ops)
+	if err != nil {
+		s.Skipped["encode-command: driver failed"]++
+		return
+	}
+	for i, j := range jobs {
+		data, _ := os.ReadFile(j.out)
+		got, term := decodeAll(codecs[j.to], data)
+		s.Count("auto-detect:encode command " + j.from + "->" + j.to)
+		if eq, at := equalAll(j.rs, got); !eq || term != "eof" || res[i] != "ok" {
+			s.Violate(kit.Violation{Kind: "encode_command", What: "what `vegeta encode` writes does not decode to what was in its input (" + j.from + " -> " + j.to + ", long stream / large first record)",
+				Input:    map[string]interface{}{"command": "vegeta encode -to " + j.to, "from": j.from, "to": j.to, "stream": j.what, "records": len(j.rs)},
+				Expected: fmt.Sprintf("ok, %d equal results then eof", len(j.rs)), Observed: fmt.Sprintf("%s, %d results, first difference at %d, then %s", res[i], len(got), at, term), Key: map[string]interface{}{"from": j.from, "to": j.to}})
+		}
+		os.Remove(j.in)
+		os.Remove(j.out)
+	}
+}
+
 // equalRun: Result.Equal / headerEqual are "the notion of equality" of the property. A deep copy must be
 // Equal, a copy that differs in exactly one field must not be; nil and empty bodies are equal, a nil and an
 // empty header map are not. Every pair also goes to the model (`c07.equal`).
@@ -1586,6 +1716,7 @@ func runC07(c *run.Ctx, s *kit.Summary) {
 	gobModelRun(c, r, s, c.N(3000, 40000))
 	equalRun(c, r, s, c.N(3000, 100000))
 	encodeCmdRun(c, r, s, c.N(150, 4000))
+	autoDetectRun(c, r, s, c.N(54, 900))
 	mutatedRun(c, r, s, "csv", c.N(2000, 60000))
 	mutatedRun(c, r, s, "json", c.N(2000, 60000))
 }
